@@ -33,6 +33,13 @@ func (p *Prog) pkg(rel string) *ssa.Package {
 // functions, "T" for methods (pointer or value receiver, whichever declares
 // the method).
 func (p *Prog) Func(relPkg, recv, name string) *ssa.Function {
+	if f := p.funcByName(relPkg, recv, name); f != nil {
+		return f
+	}
+	return anchorAliasFn[mqRaw(relPkg, recv, name)]
+}
+
+func (p *Prog) funcByName(relPkg, recv, name string) *ssa.Function {
 	sp := p.pkg(relPkg)
 	if sp == nil {
 		return nil
@@ -311,6 +318,14 @@ func qualObj(fo *types.Func) string {
 
 // mq builds a module-qualified name: mq("filesystem/fsloop", "Consumer", "Loop").
 func mq(relPkg, recv, name string) string {
+	q := mqRaw(relPkg, recv, name)
+	if a, ok := anchorAlias[q]; ok {
+		return a
+	}
+	return q
+}
+
+func mqRaw(relPkg, recv, name string) string {
 	p := modPath
 	if relPkg != "" {
 		p += "/" + relPkg
